@@ -115,6 +115,8 @@ m("C15", "one collector for all destinations", "sd.py", "        queue = self.se
 m("C15", "expired collector reused", "sd.py", "        if queue is None or queue.done:", "        if queue is None:")
 m("C15", "done flag set after the callback", "sd.py", "        self.done = True\n        self.callback(self.data, *self.args, **self.kwargs)", "        self.callback(self.data, *self.args, **self.kwargs)\n        self.done = True", "HELD")
 m("C15", "collection window twice as long", "sd.py", "                self.timings.SEND_COLLECTION_TIMEOUT, self.sd.send_sd, remote=remote", "                self.timings.SEND_COLLECTION_TIMEOUT * 2, self.sd.send_sd, remote=remote")
+m("C15", "stale-timer guard discards a window close that the loop runs within its clock resolution", "sd.py", "    def _handle_timeout(self) -> None:\n        self.done = True", "    def _handle_timeout(self) -> None:\n        if asyncio.get_event_loop().time() < self._handle.when():\n            return\n        self.done = True")
+m("C09", "stale-timer guard discards an expiry that the loop runs within its clock resolution", "sd.py", "    def _expired(self, address: _T_SOCKADDR, entry: KT) -> None:\n", "    def _expired(self, address: _T_SOCKADDR, entry: KT) -> None:\n        if self.store.get(address, {}).get(entry, (None, None))[1] is not None and self.store[address][entry][1].when() > asyncio.get_event_loop().time():\n            return\n")
 m("C15", "entries prepended", "sd.py", "        self.data.append(datum)", "        self.data.insert(0, datum)")
 m("C15", "zero timeout still collected", "sd.py", "        if self.timings.SEND_COLLECTION_TIMEOUT == 0:\n            self.sd.send_sd([entry], remote=remote)\n            return\n", "")
 # ---- C17
